@@ -3,6 +3,7 @@ import Gotree.Model.C09
 import Gotree.Model.C09Lit
 import Gotree.Model.C09Float
 import Gotree.Model.C09Items
+import Gotree.Model.C09Text
 import Gotree.Spec.C09
 
 namespace Gotree.Driver.C09
@@ -214,17 +215,25 @@ def handle (op : String) (f : List String) : Verdict :=
            | .fin c => judge ([kind] ++ modeTags) c floorGo ts cls r
            | t => judgeNonFinite ([kind] ++ modeTags) t ts cls)
     | _, _, _, _ => bad "C09.clif fields"
-  | "items", [kind, cs, fl, itemsS, cls, res, consumed, shape] =>
+  | "items", [kind, cs, fl, itemsS, cls, res, consumed, shape, raw] =>
     match parseRat? cs, fl.toInt?, parseItems itemsS, parseRes cls res with
     | some c, some floorGo, some items, some r =>
       if items.any Item.isBad then judgeItems kind c items cls consumed shape
       else
-        -- no error record: the plain run, with the two extra observations
+        -- no error record: the plain run, with the extra observations
+        let cli := kind.startsWith "cli"
         let v := judge [kind, "items", "bad-records-0"] c floorGo (itemTrees items) cls r
-        let extra := (if kind.startsWith "cli" then [] else
+        let extra := (if cli then [] else
           [if consumed.toNat? == some (consumedItems items c) then "drain-exact" else "drain-diff"])
-        if v.status == .pass && kind.startsWith "cli" && shape != "ok" then
+        if v.status == .pass && cli && shape != "ok" then
           ⟨.tie, v.tags, "cmd/consensus.go: output format: " ++ shape⟩
+        else if v.status == .pass && cli && raw != "-" then
+          -- the text written, token by token, against the Newick text of the literal model's tree
+          match unescape raw, Gotree.C09L.litOf true (itemTrees items) c with
+          | some text, some ml =>
+            if Gotree.C09L.textAgrees text ml then { v with tags := v.tags ++ ["text-exact"] }
+            else ⟨.tie, v.tags, "the text written by cmd/consensus.go differs from the Newick text of the literal model: " ++ text⟩
+          | _, _ => { v with tags := v.tags ++ ["text-none"] }
         else { v with tags := v.tags ++ extra }
     | _, _, _, _ => bad "C09.items fields"
   | "hist", [kind, cs, fl, _orig, hist, cls, res, inputs] =>
